@@ -69,6 +69,12 @@ def _family_specs():
 
 
 FAMILY_SPECS = _family_specs()
+FAMILY = list(FAMILY_SPECS)
+# further hand-written variants used by the fitting / structure properties only (C11, C12, C18)
+_n = copy.deepcopy(_LIST_NODES)
+_n["list_item"] = dict(_n["list_item"], isolating=True)
+FAMILY_SPECS["isoli"] = {"nodes": _n, "marks": copy.deepcopy(_MARKS)}
+EXTRA_FAMILY = ["isoli"]
 _SCHEMAS: dict[str, Schema] = {}
 
 
@@ -77,8 +83,6 @@ def family(name: str) -> Schema:
         _SCHEMAS[name] = Schema(copy.deepcopy(FAMILY_SPECS[name]))
     return _SCHEMAS[name]
 
-
-FAMILY = list(FAMILY_SPECS)
 
 TEXT_ALPHABET = ["a", "b", "c", " ", "x", "\U0001F600", "é", "\n", "<", "&", "\U00010348"]
 
@@ -230,6 +234,19 @@ class DocGen:
         n = other.content.size
         a = rng.randint(0, n)
         b_ = rng.randint(a, n)
+        if rng.random() < 0.3:
+            # ends on the edges of nodes: right before a closing token / right after an opening token,
+            # several levels deep, kept with their parents
+            edges = []
+            other.descendants(lambda nd, pos, *_: edges.extend([pos + 1, pos + 1 + nd.content.size]) if not nd.is_leaf and not nd.is_text else None)
+            if edges:
+                a = rng.choice(edges)
+                later = [e for e in edges if e >= a]
+                b_ = rng.choice(later) if rng.random() < 0.5 else rng.randint(a, n)
+                try:
+                    return other.slice(a, b_, rng.random() < 0.6)
+                except ValueError:
+                    return Slice.empty
         r = rng.random()
         try:
             if r < 0.75:
